@@ -66,6 +66,13 @@ def run_rfn(ctx, prop, replay=None, corpus=True):
     variant_fixed = 0
     for name, args, seed in jobs:
         rc, err, trace = ctx.harness("rfn", args, out_path=os.path.join(ctx.workdir, "%s-rfn-%s.trace" % (prop, name)), seed=seed)
+        if rc != 0 and "LIVELOCK" in err:
+            case = err.split("LIVELOCK", 1)[1].split("\n", 1)[1] if "\n" in err.split("LIVELOCK", 1)[1] else ""
+            case = "\n".join(l for l in case.split("\n") if not l.startswith("STAT "))
+            ctx.violation("%s fails on a real run of remoc::rfn: the process never becomes quiescent (a task keeps running without "
+                          "making progress)" % prop, "%s rfn livelock" % prop,
+                          "# the rfn harness made no progress for 40 s of real time while running this case; replay: harness/target/debug/rfn run <this file>\n" + case)
+            continue
         if rc != 0:
             ctx.violation("rfn harness crashed: " + err[-300:], "rfn-harness-crash", err[-4000:], name="rfn-crash.txt", no_input=True)
             continue
